@@ -1000,6 +1000,78 @@ pub fn check_cycle_label(files: &[(String, String)], on_cycle: &[String]) -> Res
     Ok(judged)
 }
 
+/// (j) a label that says "First ..." ("First use of name", "First instance", "First declaration") covers
+/// the FIRST occurrence of the word it covers, however often the name is repeated: structures and
+/// enumerations that repeat a name two, three and four times, in the same and in other letter cases
+fn first_label_grid(rep: &mut Report) {
+    let mut o = crate::runner::Outcome { stats: Stats::default(), failures: vec![] };
+    let spell = |k: usize| ["dup_zz", "DUP_ZZ", "Dup_Zz", "dup_ZZ"][k % 4];
+    let mut texts: Vec<String> = vec![];
+    for reps in 2..=4usize {
+        for cases in 0..2 {
+            for other_between in [false, true] {
+                let names: Vec<String> = (0..reps).map(|k| if cases == 0 { "dup_zz".to_string() } else { spell(k).to_string() }).collect();
+                let mut elems: Vec<String> = vec![];
+                let mut vals: Vec<String> = vec![];
+                for (k, n) in names.iter().enumerate() {
+                    elems.push(format!("{} : INT;", n));
+                    vals.push(n.clone());
+                    if other_between && k + 1 < reps {
+                        elems.push(format!("other_{} : BOOL;", k));
+                        vals.push(format!("other_{}", k));
+                    }
+                }
+                texts.push(format!("TYPE\nrec_zz : STRUCT\n{}\nEND_STRUCT;\nEND_TYPE\n", elems.join("\n")));
+                texts.push(format!("TYPE\nen_zz : ({});\nEND_TYPE\n", vals.join(", ")));
+                texts.push(format!("(* dup_zz *) TYPE\n  en_zz :\n ({}) := other_9;\nEND_TYPE\n", vals.join(",\n  ")).replace("other_9", &vals[0]));
+            }
+        }
+    }
+    for text in texts {
+        o.stats.case(true, hash_str(&text));
+        let lib = match crate::panicx::catch(|| parse_program(&text, &FileId::from_string("first.st"), &ParseOptions::default())) {
+            Ok(Ok(l)) => l,
+            _ => {
+                o.stats.class("j.first-label.not-judged");
+                continue;
+            }
+        };
+        let ds = match crate::panicx::catch(|| analyze(&[&lib])) {
+            Ok(Err(ds)) => ds,
+            _ => {
+                o.stats.class("j.first-label.not-judged");
+                continue;
+            }
+        };
+        let mut judged = false;
+        for d in ds.iter().filter(|d| d.code == "P0003" || d.code == "P0005") {
+            for l in std::iter::once(&d.primary).chain(d.secondary.iter()) {
+                if !l.message.starts_with("First") {
+                    continue;
+                }
+                let (s, e) = (l.location.start, l.location.end);
+                if s > e || e > text.len() || !text.is_char_boundary(s) || !text.is_char_boundary(e) {
+                    o.failures.push((Failure::new("first-label", "range", format!("{}: label {:?} {}..{} is no range of the text", d.code, l.message, s, e), json!({"text": text})), vec![]));
+                    continue;
+                }
+                let word = &text[s..e];
+                // (occurrences outside comments: the texts have at most one comment, in front)
+                let body_from = text.find("TYPE").unwrap_or(0);
+                let first = occurrences(&text[body_from..], word).first().map(|p| p + body_from);
+                judged = true;
+                if first != Some(s) {
+                    o.failures.push((
+                        Failure::new("first-label", "not-the-first", format!("{}: the label {:?} covers {:?} at byte {}; the first occurrence of that name is at byte {:?}", d.code, l.message, word, s, first), json!({"text": text})),
+                        vec![],
+                    ));
+                }
+            }
+        }
+        o.stats.class(if judged { "j.first-label.judged" } else { "j.first-label.not-judged" });
+    }
+    rep.add(o);
+}
+
 fn cycle_grid(rep: &mut Report) {
     use crate::props::c07::{realise_fb, realise_mixed, realise_type, Graph};
     let mut items: Vec<(usize, u64, usize)> = vec![];
@@ -1230,6 +1302,7 @@ pub fn run(ctx: &Ctx) -> i32 {
     clash_grid(&mut rep);
     chain_grid(&mut rep);
     cycle_grid(&mut rep);
+    first_label_grid(&mut rep);
     rep.replay_witnesses(&ctx.findings, &|w| witness(w, &Gates::all_on()));
     rep.extra.insert("gates_off".into(), json!(off));
     rep.assumptions = vec![
